@@ -313,14 +313,16 @@ impl<'a> Run<'a> {
             self.metrics.lock().push(metrics);
         }
 
-        // Remove from running.
-        self.running.write().remove(module.as_ref());
+        // Insert into updated map no matter what. This has to happen before
+        // the module is removed from running or a thread arriving in between
+        // would start another update.
+        self.updated.write().insert(module.clone().into_owned());
 
         #[cfg(routinator_verif)]
         crate::utils::sync::verif_pause("rsync-module-bookkeeping");
 
-        // Insert into updated map no matter what.
-        self.updated.write().insert(module.into_owned());
+        // Remove from running.
+        self.running.write().remove(module.as_ref());
     }
 
     /// Loads the file for the given URI.
